@@ -318,6 +318,8 @@ fn run_pipeline(v: &Value, out: &mut Vec<String>) {
     let mut status: Option<ExitStatus> = None;
     let mut result: Result<(), PopenError> = Ok(());
     let mut pheld: Option<Vec<Value>> = None;
+    // "wait_eintr": n -- a signal handler (installed without SA_RESTART) interrupts the n-th waitpid() of the call
+    slog::set_fault(v["wait_eintr"].as_u64().map(|n| slog::Fault { kind: slog::K_WAITPID, nth: n as u32, side: 0, errno: libc::EINTR }));
     slog::resume();
     let r = catch_unwind(AssertUnwindSafe(|| -> Result<(), PopenError> {
         match term {
@@ -368,6 +370,7 @@ fn run_pipeline(v: &Value, out: &mut Vec<String>) {
         Ok(())
     }));
     slog::stop();
+    slog::set_fault(None);
     if unsafe { slog::IN_CHILD } != 0 {
         slog::rec(slog::K_ESCAPE, 0, 0, 0, 0, 0, b"");
         unsafe { simk::raw::exit_group(98) };
@@ -598,6 +601,11 @@ fn apply_op(e: Exec, op: &Value) -> Exec {
         }
         "env_remove" => e.env_remove(s(1)),
         "env_clear" => e.env_clear(),
+        // not a builder call: the process environment changes while the command is being put together
+        "setenv_proc" => {
+            std::env::set_var(s(1), s(2));
+            e
+        }
         "cwd" => e.cwd(s(1)),
         "stdin" | "stdout" | "stderr" => stream_kind(e, a[0].as_str().unwrap(), a[1].as_str().unwrap()),
         "detached" => e.detached(),
@@ -693,6 +701,7 @@ fn run_builder(v: &Value, out: &mut Vec<String>) {
     if let Some(e) = fin {
         runs.push(("final".to_string(), e));
     }
+    let unset_after: Vec<String> = ops.iter().filter(|op| op[0].as_str() == Some("setenv_proc")).map(|op| op[1].as_str().unwrap().to_string()).collect();
     // run every command obtained (clone originals with a plain join-like terminator of their own)
     for (name, e) in runs {
         slog::reset();
@@ -755,6 +764,9 @@ fn run_builder(v: &Value, out: &mut Vec<String>) {
             "execargs":execargs,"report":rep}).to_string());
     }
     std::panic::set_hook(hook);
+    for k in unset_after {
+        std::env::remove_var(k);
+    }
     unsafe { slog::LOG_EXEC_ARGS = false };
     out.push(json!({"e":"bresult","refused_at":refused_at}).to_string());
 }
